@@ -39,3 +39,13 @@ CHECKS['C01'] = dict(level='other',
         'Level "other": mixed rule set (sibling differential + compile-fail witnesses).',
    technique='sibling cross-check of instantiated LLVM IR: term identity, polynomial normal forms, finite ordering x NaN case analysis, float-class abstract interpretation')
 NOT_APPLICABLE.pop('C01', None)
+
+CHECKS['C12'] = dict(level='proof',
+   text='dot, length, distance, cross, normalize, reflect, refract, faceforward (vec1-4 and genType overloads) and the gtx length2/distance2/l1/l2 norms, proj, perp, orthonormalize '
+        '(vec3 and mat3 Gram-Schmidt), angle, orientedAngle, closestPointOnLine, triangleNormal, vec2 cross, mixedProduct are proved lane by lane ring-equal to the textbook formula '
+        '(rational functions with sqrt/acos atoms; decisions compared under every valuation of the comparison atoms); refract additionally satisfies guard dominance: sqrt(k) reaches the '
+        'result only under the k >= 0 guard and the other arm is 0.',
+   note='Decided: the algebraic definitions and branch structure for all inputs. Not decided: unit length of normalize, numeric Snell law, degenerate configurations, float rounding. '
+        'Orthogonality/anti-commutativity of cross follow mathematically from the determinant formula.',
+   technique='abstract interpretation of instantiated LLVM IR into rational normal forms; decision-table comparison; NaN-propagation guard-dominance rule')
+NOT_APPLICABLE.pop('C12', None)
